@@ -4072,25 +4072,60 @@ Box<ITV>::generalized_affine_preimage(const Linear_Expression& lhs,
     throw_invalid_argument("generalized_affine_image(e1, r, e2)",
                            "r is the disequality relation symbol");
   }
-  // Any image of an empty box is empty.
-  if (marked_empty()) {
+  // Any preimage of an empty box is empty.
+  if (is_empty()) {
     return;
   }
-  // For any dimension occurring in the lhs, swap and change the sign
-  // of this component for the rhs and lhs.  Then use these in a call
-  // to generalized_affine_image/3.
-  Linear_Expression revised_lhs = lhs;
-  Linear_Expression revised_rhs = rhs;
+  // If `lhs' is a constant, the preimage is obtained by refining
+  // the box with the constraint `lhs relsym rhs'.
+  if (lhs.all_homogeneous_terms_are_zero()) {
+    generalized_affine_image(lhs, relsym, rhs);
+    return;
+  }
+
+  // The preimage is the set of points `p' such that there exists a
+  // point `q' of the box, differing from `p' only on the dimensions
+  // occurring in `lhs', with `lhs(q) relsym rhs(p)'.
+  // Since `lhs(q)' only depends on those dimensions, this holds if and
+  // only if `rhs(p)' is suitably related to the maximum and minimum
+  // values of `lhs' on the box.
+  PPL_DIRTY_TEMP_COEFFICIENT(max_numer);
+  PPL_DIRTY_TEMP_COEFFICIENT(max_denom);
+  bool max_included;
+  const bool max_lhs = maximize(lhs, max_numer, max_denom, max_included);
+  PPL_DIRTY_TEMP_COEFFICIENT(min_numer);
+  PPL_DIRTY_TEMP_COEFFICIENT(min_denom);
+  bool min_included;
+  const bool min_lhs = minimize(lhs, min_numer, min_denom, min_included);
+
+  // The dimensions occurring in `lhs' are unconstrained in the preimage.
   for (Linear_Expression::const_iterator i = lhs.begin(),
          i_end = lhs.end(); i != i_end; ++i) {
-    const Variable var = i.variable();
-    PPL_DIRTY_TEMP_COEFFICIENT(tmp);
-    tmp = *i;
-    tmp += rhs.coefficient(var);
-    sub_mul_assign(revised_rhs, tmp, var);
-    sub_mul_assign(revised_lhs, tmp, var);
+    seq[i.variable().id()].assign(UNIVERSE);
   }
-  generalized_affine_image(revised_lhs, relsym, revised_rhs);
+
+  // `min(lhs) <= rhs' (or `<').
+  const bool need_min = (relsym == LESS_THAN || relsym == LESS_OR_EQUAL
+                         || relsym == EQUAL);
+  // `rhs <= max(lhs)' (or `<').
+  const bool need_max = (relsym == GREATER_THAN || relsym == GREATER_OR_EQUAL
+                         || relsym == EQUAL);
+  if (need_min && min_lhs) {
+    if (relsym == LESS_THAN || !min_included) {
+      refine_with_constraint(min_denom * rhs > min_numer);
+    }
+    else {
+      refine_with_constraint(min_denom * rhs >= min_numer);
+    }
+  }
+  if (need_max && max_lhs) {
+    if (relsym == GREATER_THAN || !max_included) {
+      refine_with_constraint(max_denom * rhs < max_numer);
+    }
+    else {
+      refine_with_constraint(max_denom * rhs <= max_numer);
+    }
+  }
   PPL_ASSERT(OK());
 }
 
